@@ -126,7 +126,9 @@ def _chunk_task(pid, tier, seeds, want_digests):
                 agg['errors'].append(
                     {'seed': seed, 'error': 'MemoryError in worker'})
                 continue
-            except Exception:
+            except KeyboardInterrupt:
+                raise
+            except BaseException:       # incl. escaped SimInterrupt
                 agg['errors'].append(
                     {'seed': seed, 'error': traceback.format_exc()[-2000:]})
                 continue
@@ -252,7 +254,9 @@ def check(pid, tier='quick', base_seed=0, workers=None, runs=None,
             pending.pop(done)
             try:
                 part = done.result()
-            except Exception as e:      # worker died (OOM kill, segfault)
+            except BaseException as e:  # worker died (OOM kill, segfault)
+                if isinstance(e, KeyboardInterrupt):
+                    raise
                 harness_error = f'worker failed: {type(e).__name__}: {e}'
                 break
             agg['runs'] += part['runs']
